@@ -4,6 +4,7 @@ import FractopoModel.Props.C08
 import FractopoModel.Props.C14
 import FractopoModel.Lemmas.IntersectionFilter
 import FractopoModel.Generated.LineDataCache
+import FractopoModel.Generated.ZCoordinates
 /-!
 # C11 — results depend only on 2-D geometry: order, direction, similarity
 
@@ -183,5 +184,23 @@ theorem C11_param_scaling (k : Rat) (hk : 0 < k) (n : NetIn) :
   · rw [hp21, hmb]; grind
 
 example : Pt.dist2 (sym true true false ⟨1, 2⟩) (sym true true false ⟨4, 6⟩) = 25 := by decide +kernel
+
+/-! ### decoration with Z values -/
+
+theorem zip_map_self {α β γ : Type} (f : α → β → γ) (g : α → β) (l : List α) : List.zipWith f l (l.map g) = l.map fun r => f r (g r) := by
+  induction l with
+  | nil => rfl
+  | cons a as ih => simp [ih]
+
+/-- Z values are removed row by row whatever the index labels are (regenerated `remove_z_coordinates_from_geodata`): a map decorated with Z values and any
+index is, after the clean-up that `Network`, `Validation` and `branches_and_nodes` run first, the same map in 2-D with the same labels and data -/
+theorem C11_generated_z_removal {L D G : Type} [BEq L] [LawfulBEq L] (dropz : G → G) (nan : G) (frame : List (L × D × G)) :
+    Gen.remove_z_coordinates_from_geodata dropz nan frame = .ok (frame.map fun r => (r.1, r.2.1, dropz r.2.2)) := by
+  unfold Gen.remove_z_coordinates_from_geodata pyAssignAligned
+  simp only [List.map_map, Function.comp_def]
+  have : (List.map (fun r => r.1) frame == List.map (fun r => r.1) frame) = true := by simp
+  simp only [this, if_true, zip_map_self]
+
+example : Gen.remove_z_coordinates_from_geodata (fun g : Nat => g % 100) 0 [(7, "a", 301), (7, "b", 402), (3, "c", 5)] = .ok [(7, "a", 1), (7, "b", 2), (3, "c", 5)] := by decide
 
 end C11
